@@ -15,15 +15,15 @@ Doc == [
  form |-> << <<0, 0, 1, FALSE, IF Has("formid") THEN "f1" ELSE "~", "cats", "~">> >>,
  pron |-> IF Has("pron") THEN << <<0, 0, 0, 0, "kat", "~", "~", TRUE, "~">> >> ELSE <<>>,
  tag |-> << <<0, 0, 0, 0, "sg", "number">> >>,
- sense |-> << <<0, 0, 0, FALSE, "w1-1", "s1", "~", TRUE, "~", IF Has("subcat") THEN "sb1" ELSE "~">> >>,
+ sense |-> << <<0, 0, 0, FALSE, "w1-1", "s1", "~", TRUE, "~", IF Has("subcat") THEN <<"sb1">> ELSE <<>> >> >>,
  srel |-> <<>>, sex |-> << <<0, 0, 0, 0, "ex", "~", "{\"source\":\"s\"}">> >>, count |-> <<>>,
  eframe |-> IF Has("eframes") THEN << <<0, 0, 0, IF Has("frameid") THEN "sb9" ELSE "~", "frame",
-                                        IF Has("framesenses") THEN "w1-1" ELSE "~">> >> ELSE <<>>,
- synset |-> << <<0, 0, FALSE, "s1", "i1", "n", "~", TRUE, IF Has("members") THEN "w1-1" ELSE "~",
+                                        IF Has("framesenses") THEN <<"w1-1">> ELSE <<>> >> >> ELSE <<>>,
+ synset |-> << <<0, 0, FALSE, "s1", "i1", "n", "~", TRUE, IF Has("members") THEN <<"w1-1">> ELSE <<>>,
                  IF Has("lexfile") THEN "noun.animal" ELSE "~", "~", "~">> >>,
  def |-> <<>>, yrel |-> <<>>, yex |-> <<>>,
  lframe |-> IF Has("lframes") THEN << <<0, 0, IF Has("frameid") THEN "sb1" ELSE "~", "frame",
-                                        IF Has("framesenses") THEN "w1-1" ELSE "~">> >> ELSE <<>> ]
+                                        IF Has("framesenses") THEN <<"w1-1">> ELSE <<>> >> >> ELSE <<>> ]
 Init == feats = {}
 Next == \E f \in Features \ feats : feats' = feats \cup {f}
 \* a projected document, seen again as sequences (order is irrelevant here)
